@@ -1679,7 +1679,7 @@ pub fn main(tier: Tier, seed: u64) -> Report {
     if !regress.is_empty() {
         runner::run_cases(&mut rep, "regress-watch", regress, run);
     }
-    runner::run_generated(&mut rep, "watch", tier.pick(10_000, 300_000), || strategy(tier), run);
+    runner::run_generated(&mut rep, "watch", tier.pick(40_000, 300_000), || strategy(tier), run);
     rep
 }
 
